@@ -31,6 +31,7 @@ const (
 	cipherAES128ctr = "aes-128-ctr"
 	kdfTypeScrypt   = "scrypt"
 	kdfTypePbkdf2   = "pbkdf2"
+	derivedKeyLen   = 32 // 16 bytes AES-128 key followed by 16 bytes MAC key
 )
 
 type WalletFile interface {
